@@ -291,7 +291,10 @@ def check_case(case):
     res["nontrivial"] = True
     if tr == "shift":
         new_org = org + arg
-        if (new_org < 0x100) != (org < 0x100) or new_org + len(ref["image"]) > 0xFFFF or new_org < 0:
+        if (new_org < 0x100) != (org < 0x100) or new_org + len(ref["image"]) > 0x10000 or new_org < 0:
+            return res
+        if new_org + len(ref["image"]) == 0x10000 and any(a is not None and a + arg > 0xFFFF for a in ref["addrs"]):
+            # the last byte lands on $FFFF and a statement that emits nothing would follow it at $10000, which is no address
             return res
         if org < 0x100 and max(org, new_org) + len(ref["image"]) > 0x100:
             return res
